@@ -19,10 +19,14 @@ GLOBAL_ASSUMPTIONS = [
 # module name -> (source file it becomes a child of, harness file)
 MODULES = {
     "hist_c08": ("src/histogram.rs", K / "hist_c08.rs"),
+    "atomic_c01": ("src/atomic64.rs", K / "atomic_c01.rs"),
+    "counter_c01": ("src/counter.rs", K / "counter_c01.rs"),
+    "gauge_c11": ("src/gauge.rs", K / "gauge_c11.rs"),
 }
 
 CRATE_MODULES = {
     "__vsup": K / "vsup.rs",
+    "__venv": K / "venv.rs",
 }
 
 
@@ -33,7 +37,28 @@ def modpath(rel: str, modname: str) -> str:
     return "%s::__v_%s" % (p, modname)
 
 
+A2 = "A2 memory model: the write events of one atomic location are totally ordered (modification order) and an RMW reads the value it replaces; 'real time' is identified with happens-before. No interleaving is explored: schedules are covered by the per-step guarantee under ARBITRARY interference (every value read at every atomic step is havocked) plus the single-cell composition lemma (Verus)"
+ENV = "std atomic methods are replaced by the environment model /verif/kani/venv.rs in harnesses carrying kani::stub attributes: values read are arbitrary, compare_exchange_weak may fail at most K times per harness (bounded fairness, unwinding assertions on)"
+
 PLAN = {
+    "C01": dict(
+        title="Counter increments are never lost and never go backwards",
+        level="proof",
+        modules=["atomic_c01", "counter_c01"],
+        crate_modules=["__venv"],
+        verus=["c01_rmw_fold.rs"],
+        functions=[],
+        assumptions=[A2, ENV, "children of counter vectors are GenericCounter values built by the same constructor (vector get-or-create is C05/C10)"],
+    ),
+    "C11": dict(
+        title="Gauge operations are atomic",
+        level="proof",
+        modules=["atomic_c01", "gauge_c11"],
+        crate_modules=["__venv"],
+        verus=["c01_rmw_fold.rs"],
+        functions=[],
+        assumptions=[A2, ENV, "for f64, sub(x) undoes add(x) only up to IEEE rounding: the contract is c + x + (-x); exact inversion is proved for IntGauge"],
+    ),
     "C08": dict(
         title="Bucket counts follow 'value <= upper bound' for every input",
         level="proof",
@@ -60,3 +85,7 @@ def inject_spec(pid: str, features: str = "plain"):
     spec["contracts"] = list(p.get("contracts", []))
     spec["crate_attrs"] = list(p.get("crate_attrs", []))
     return spec
+
+NOT_APPLICABLE = {
+    "C19": "quantifies over all make_static_metric! declarations: the code is a proc-macro token-stream generator (syn/quote); no contract on a token builder can express 'the generated item addresses child X', and checking a few fixed expansions has no symbolic input (DESIGN.md section 5 C19)",
+}
